@@ -283,6 +283,30 @@ async fn replay_on_real_tree<TC: Configuration>(cc: &CaseCtx, rng: &mut Rng, l: 
     let conflict_fresh: Vec<u64> = fut1.iter().chain(absent_fresh_2.iter()).filter(|f| fresh.contains(f)).copied().collect();
     let conflict_stale: Vec<u64> = absent_stale_2.iter().filter(|s| stale.contains(s)).copied().collect();
     let predicted_both = conflict_fresh.is_empty() && conflict_stale.is_empty();
+    // Half of the cases resolve the conflicts the other way round ("absent wins"): every leaf that one proof
+    // needs ABSENT is left out of the tree, so the proof that needs it PRESENT must be rejected - this makes
+    // each presence requirement of the verifiers (value leaf, marker leaf, stale leaf) decisive in turn.
+    let absent_wins = rng.chance(1, 2) && !predicted_both;
+    // what each proof needs present
+    let mut req1_fresh: Vec<u64> = (s1..=n).collect();
+    req1_fresh.extend(past1.iter());
+    let req1_stale: Vec<u64> = (s1..=n).filter(|v| *v > 1).map(|v| v - 1).collect();
+    let (req2_fresh, req2_stale): (Vec<u64>, Vec<u64>) = if lookup_vs_history {
+        (vec![m, pow2_floor(m)], vec![])
+    } else {
+        let (past2, _) = get_marker_versions(s2, m, e);
+        let mut f: Vec<u64> = (s2..=m).collect();
+        f.extend(past2.iter());
+        (f, (s2..=m).filter(|v| *v > 1).map(|v| v - 1).collect())
+    };
+    let (mut predicted_a1, mut predicted_a2) = (true, true);
+    if absent_wins {
+        fresh.retain(|f| !conflict_fresh.contains(f));
+        stale.retain(|x| !conflict_stale.contains(x));
+        predicted_a1 = req1_fresh.iter().all(|f| fresh.contains(f)) && req1_stale.iter().all(|x| stale.contains(x));
+        predicted_a2 = req2_fresh.iter().all(|f| fresh.contains(f)) && req2_stale.iter().all(|x| stale.contains(x));
+        l.count("realtree_absent_wins", 1);
+    }
 
     // The dishonest server also chooses WHEN each version enters the tree: one version per epoch (ep(v) = v),
     // or several versions of the label inside ONE epoch (bursts, everything in the current epoch) - the
@@ -379,6 +403,26 @@ async fn replay_on_real_tree<TC: Configuration>(cc: &CaseCtx, rng: &mut Rng, l: 
     let kind = if lookup_vs_history { "LvH" } else { "HvH" };
     l.case(format!("{kind}/{e}/{n}/{m}/{s1}/{s2}").as_bytes(), true);
     let both = a1 && a2;
+    if absent_wins {
+        let detail = json!({"kind": kind, "cfg": cfg_of_name::<TC>(), "E": e, "n": n, "m": m, "s1": s1, "s2": s2, "epoch_mode": epoch_mode,
+            "fresh_leaves_in_tree": fresh, "stale_leaves_in_tree": stale, "left_out_fresh": conflict_fresh, "left_out_stale": conflict_stale,
+            "history1_accepted": a1, "history1_should_be": predicted_a1, "proof2_accepted": a2, "proof2_should_be": predicted_a2});
+        if (a1 && !predicted_a1) || (a2 && !predicted_a2) {
+            let which = if a1 && !predicted_a1 { "history" } else if lookup_vs_history { "lookup" } else { "second-history" };
+            l.violation(
+                format!("C08:presence-not-required/{kind}/{which}"),
+                format!("REAL verifiers: at epoch {e} the {which} proof is accepted although a leaf it must show present (fresh {conflict_fresh:?} / stale {conflict_stale:?}) is not in the tree - so it can be accepted together with a proof showing that leaf absent"),
+                detail,
+            );
+        } else if a1 == predicted_a1 && a2 == predicted_a2 {
+            l.count("realtree_both_accept_matches_setlevel", 1);
+            l.count("realtree_absent_wins_as_predicted", 1);
+        } else {
+            l.count("realtree_setlevel_mismatch", 1);
+            l.inconclusive(format!("set-level oracle disagrees with the real verifiers (absent wins) on {detail}"));
+        }
+        return;
+    }
     let detail = json!({"kind": kind, "cfg": cfg_of_name::<TC>(), "E": e, "n": n, "m": m, "s1": s1, "s2": s2, "epoch_mode": epoch_mode,
         "epoch_of_version": (1..=maxv).map(|v| ep(v)).collect::<Vec<_>>(),
         "fresh_leaves_in_tree": fresh, "stale_leaves_in_tree": stale, "history1_accepted": a1, "proof2_accepted": a2,
